@@ -17,6 +17,7 @@ def err_kind(e):
     if isinstance(e, ValueError): return ERR_VALUE
     if isinstance(e, AssertionError): return ERR_ASSERT
     if isinstance(e, IndexError): return ERR_INDEX
+    if isinstance(e, (AttributeError, TypeError)): return 6
     if isinstance(e, RuntimeError):
         s = str(e)
         if 'adding size' in s or 'Padding' in s: return ERR_PADSIZE
@@ -42,7 +43,7 @@ def int_filter(rng, L):
 def call(fn):
     try:
         out = fn()
-    except (ValueError, RuntimeError, AssertionError, IndexError) as e:
+    except (ValueError, RuntimeError, AssertionError, IndexError, AttributeError, TypeError) as e:
         return ('err', err_kind(e))
     return out
 
@@ -112,8 +113,8 @@ def cases_functions_1d(rng, Ls, Ns, modes, NC=((2, 2),)):
                     x0, x1 = r
                     out.append(Case(3, [mi], [h0, h1], [X[:, :, None]], (A4(x0), A4(x1)), dict(fn='AFB1D.forward', L=L, N=N, mode=mode, NC=(nb, C))))
                     G0, G1 = rand_int(rng, x0.shape), rand_int(rng, x1.shape)
-                    dx, = torch.autograd.grad([x0, x1], [x], [T(G0), T(G1)])
-                    out.append(Case(4, [mi, N], [h0, h1], [G0[:, :, None], G1[:, :, None]], (A4(dx),), dict(fn='AFB1D.backward', L=L, N=N, mode=mode, NC=(nb, C))))
+                    rb = call(lambda: (A4(torch.autograd.grad([x0, x1], [x], [T(G0), T(G1)])[0]),))
+                    out.append(Case(4, [mi, N], [h0, h1], [G0[:, :, None], G1[:, :, None]], rb, dict(fn='AFB1D.backward', L=L, N=N, mode=mode, NC=(nb, C))))
                     # synthesis on a pyramid of the same shapes
                     LO, HI = rand_int(rng, x0.shape), rand_int(rng, x1.shape)
                     lo, hi = T(LO).requires_grad_(True), T(HI).requires_grad_(True)
@@ -156,8 +157,8 @@ def cases_functions_2d(rng, LL, sizes, modes, NC=((1, 2),)):
                     low, highs = r
                     out.append(Case(7, [mi], fl, [X], (A4(low), hs(highs)), dict(fn='AFB2D.forward', **meta)))
                     GL, GH = rand_int(rng, low.shape), rand_int(rng, highs.shape)
-                    dx, = torch.autograd.grad([low, highs], [x], [T(GL), T(GH)])
-                    out.append(Case(8, [mi, H, W], fl, [GL, GH.reshape(nb, -1, GH.shape[-2], GH.shape[-1])], (A4(dx),), dict(fn='AFB2D.backward', **meta)))
+                    rb = call(lambda: (A4(torch.autograd.grad([low, highs], [x], [T(GL), T(GH)])[0]),))
+                    out.append(Case(8, [mi, H, W], fl, [GL, GH.reshape(nb, -1, GH.shape[-2], GH.shape[-1])], rb, dict(fn='AFB2D.backward', **meta)))
                     LO, HI = rand_int(rng, low.shape), rand_int(rng, highs.shape)
                     lo, hi = T(LO).requires_grad_(True), T(HI).requires_grad_(True)
                     y = call(lambda: ll.SFB2D.apply(lo, hi, tr0, tr1, tc0, tc1, mi))
